@@ -4,6 +4,7 @@ package main
 // inlining of small contract-less helpers, heap/maps/slices, panic obligations.
 
 import (
+	"os"
 	"fmt"
 	"go/constant"
 	"go/token"
@@ -378,7 +379,7 @@ func (vc *funcVC) typed(term string, t types.Type, st *state) {
 	case *types.Map, *types.Chan, *types.Signature:
 		vc.assumeG(fmt.Sprintf("(< (born %s) %s)", term, st.alloc))
 	case *types.Slice:
-		vc.assumeG(fmt.Sprintf("(and (>= (slen %s) 0) (>= (soff %s) 0) (< (born (sdata %s)) %s))", term, term, term, st.alloc))
+		vc.assumeG(fmt.Sprintf("(and (>= (slen %s) 0) (>= (soff %s) 0) (< (born (sdata %s)) %s) (=> (> (slen %s) 0) (distinct (sdata %s) nil)))", term, term, term, st.alloc, term, term))
 	case *types.Struct:
 		sn := c.structSort(t)
 		for i := 0; i < u.NumFields(); i++ {
@@ -1154,7 +1155,10 @@ func (vc *funcVC) havoc(st, pre *state, ms *modset, why string, rootTerm func(ss
 		c.heapWF(n, c.heapSorts[k], newA)
 		sh := ms.real[k]
 		delete(st.base, k)
-		if !sh.nonObj && !sh.any && len(sh.objs) > 0 && objTerm != nil {
+		if os.Getenv("GRITSVC_DEBUG_HAVOC") != "" {
+			fmt.Fprintf(os.Stderr, "havoc %s %s: nonObj=%v any=%v objs=%d elem=%v obj=%v objTerm=%v\n", why, k, sh.nonObj, sh.any, len(sh.objs), sh.elem, sh.obj, objTerm != nil)
+		}
+		if !sh.nonObj && (!sh.any || (strings.HasPrefix(k, "F_") && !sh.nonCell)) && len(sh.objs) > 0 && objTerm != nil {
 			var objs []baseObj
 			ok := true
 			for o := range sh.objs {
@@ -1171,6 +1175,24 @@ func (vc *funcVC) havoc(st, pre *state, ms *modset, why string, rootTerm func(ss
 				} else {
 					st.base[k] = heapBase{old, objs}
 				}
+
+			}
+		}
+		if !sh.nonCell && len(sh.cellObjs) > 0 && objTerm != nil {
+			// every write is a direct store into one of these local objects: all other cells are unchanged
+			var g []string
+			ok := true
+			for o := range sh.cellObjs {
+				t, found := objTerm[o]
+				if !found {
+					ok = false
+					break
+				}
+				g = append(g, fmt.Sprintf("(distinct (oid fa!x) %s)", t.term))
+			}
+			if ok {
+				sort.Strings(g)
+				c.assume(fmt.Sprintf("(forall ((fa!x Ref)) (! (=> %s (= (select %s fa!x) (select %s fa!x))) :pattern ((select %s fa!x))))", and(g...), n, old, n))
 			}
 		}
 		if sh.any {
